@@ -7,6 +7,8 @@ from . import common, generic
 RULE = ("one evaluation = one scheduler API call or one dispatch step (one real fetchAndReschedule, released through the gated queue) "
         "executed on the real StdScheduler and on the Lean model with the clock reading the code used; outputs (error class, trigger calls "
         "with their prev argument and answer, popped/pushed entry, dispatch, misfire, heap order) compared exactly; "
+        "or one direct interrogation of a real SimpleTrigger / RunOnceTrigger (1..3 consecutive NextFireTime calls, each with the previous answer, intervals up to "
+        "math.MaxInt64, prev up to math.MaxInt64: the additions a step at the real clock cannot reach); "
         "a sequence is non-trivial if it mixes API calls and steps; distinct by hash of the op-kind sequence")
 
 
